@@ -614,7 +614,7 @@ func C04(c *Ctx) {
 		for _, src := range sourcesWithFacts(bsArg, stepFns) {
 			succ := false
 			for _, f := range flow.Expand(src.facts) {
-				if b, isB := f.Cond.(*ssa.BinOp); isB && b.X == aerr && ssau.IsNilConst(b.Y) {
+				if b, isB := f.Cond.(*ssa.BinOp); isB && sameValue(b.X, aerr, actionCall.Parent()) && ssau.IsNilConst(b.Y) {
 					if (b.Op == token.EQL && f.True) || (b.Op == token.NEQ && !f.True) {
 						succ = true
 					}
@@ -622,7 +622,7 @@ func C04(c *Ctx) {
 			}
 			if succ {
 				base, is := isFieldLoad(src.leaf, "core", "Execution", "Bs")
-				if is && base == exe {
+				if is && sameValue(base, exe, actionCall.Parent()) {
 					okRepl = true
 				} else {
 					why = append(why, "on the action's success edge the bindings are "+src.leaf.Name()+", not the execution's Bs")
@@ -675,7 +675,7 @@ func C04(c *Ctx) {
 					return about(x.Common().Args[0], depth+1)
 				}
 			}
-			if v == aerr || v == exe {
+			if sameValue(v, aerr, actionCall.Parent()) || sameValue(v, exe, actionCall.Parent()) {
 				out["exec"] = true
 				return out
 			}
